@@ -283,10 +283,13 @@ def run(prop, tier, replay, Ctx):
         "structure": "full product traits(1..4) x groups(0..2) x shared method name x second (container,context) variant x 25 configs x language(2)",
     }
     entries = wrappers = 0
+    unjudged = {}
     for (section, label, case), r in zip(cases, results):
         if "machinery" in r:
             raise Ctx.Machinery("%s (case %s)" % (r["machinery"], json.dumps(case)[:300]))
-        V = r["violations"]
+        V, unj = TL.split_judged(r["violations"])
+        for k, n in unj.items():
+            unjudged[k] = unjudged.get(k, 0) + n
         obs = r["obs"]
         entries += obs.get("entries", 0)
         wrappers += obs.get("calls", 0)
@@ -299,6 +302,8 @@ def run(prop, tier, replay, Ctx):
                 add_violation(rep, section, s, d, case)
     for s in rep.order:
         rep.rule(s, rules.get(s, ""))
+    rep.note(rep.order[0], "unjudged_observations", unjudged)
+    rep.assume("causes listed in bindgen_tool.UNJUDGED are recorded, not judged: they depend on cbindgen's C++ template / alias rendering, which cannot be confirmed offline; a header that fails to compile for such a cause contributes no further checks")
     rep.note("slice", "vtable_entries_checked", entries)
     rep.note("slice", "wrapper_calls_executed", wrappers)
     rep.note("slice", "enumeration_wall_s", round(time.time() - t0, 1))
